@@ -1,5 +1,6 @@
 import SamVerif.Props.C04
 import SamVerif.Props.C04b
+import SamVerif.Props.C04c
 /-! Axiom audit of every C04 property theorem (parsed by vlib/common.py). -/
 open SamVerif.Backends
 #print axioms bin_agree_counterexample
@@ -38,3 +39,8 @@ open SamVerif.Backends
 #print axioms ref_eq_agree
 #print axioms loose_eq_counterexample
 #print axioms loose_eq_iff
+#print axioms layout_wf
+#print axioms variant_test_agree
+#print axioms match_agree
+#print axioms variant_test_loose_counterexample
+#print axioms wf_needed
